@@ -1345,6 +1345,34 @@ func c12FormatOpinions(ops []c12Opinion, ref c12Verdict) string {
 	return b.String()
 }
 
+// dumpVisited renders only the chains the packet entered.
+func (n *c12NF) dumpVisited(p refpol.Packet, inbound bool, mark0 uint32) string {
+	entry := n.fromWl
+	if inbound {
+		entry = n.toWl
+	}
+	res, err := n.rs.Run(entry, &nfsim.Packet{IPVersion: p.IPVersion, Proto: p.Proto, Src: p.Src, Dst: p.Dst, SrcPort: p.SrcPort, DstPort: p.DstPort,
+		ICMPType: p.ICMPType, ICMPCode: p.ICMPCode, InIf: "cali1234", OutIf: "eth0", Mark: mark0, CTState: "NEW", LimitOK: true})
+	if err != nil {
+		return n.rs.Dump()
+	}
+	want := map[string]bool{}
+	for _, c := range res.Chains {
+		want["chain "+c] = true
+	}
+	var b strings.Builder
+	keep := false
+	for _, line := range strings.Split(n.rs.Dump(), "\n") {
+		if !strings.HasPrefix(line, " ") {
+			keep = want[line]
+		}
+		if keep {
+			b.WriteString(line + "\n")
+		}
+	}
+	return b.String()
+}
+
 func c12Known(sig string) bool {
 	if ev.Known(sig) {
 		return true
@@ -1369,7 +1397,7 @@ func c12Bucket(n int) string {
 	}
 }
 
-func c12RunCase(t *rapid.T, rec *ev.Recorder, noNamed, noLongPrefix bool) {
+func c12RunCase(t *rapid.T, rec *ev.Recorder, noNamed, noLongPrefix bool, caseNo int) {
 	ipv := rapid.SampledFrom([]int{4, 6}).Draw(t, "ipVersion")
 	marks := rapid.SampledFrom(c12MarkLayouts).Draw(t, "markLayout")
 	flowLogs := rapid.Bool().Draw(t, "flowLogs")
@@ -1442,8 +1470,7 @@ func c12RunCase(t *rapid.T, rec *ev.Recorder, noNamed, noLongPrefix bool) {
 
 		if !c12Agree(ops) {
 			var b strings.Builder
-			fmt.Fprintf(&b, "C12 violated: the implementations disagree on the verdict for the same endpoint policy state and packet\n")
-			fmt.Fprintf(&b, "  packet: %v direction=%v (IPv%d)\n", p, dir, ipv)
+			fmt.Fprintf(&b, "verdicts for packet: %v direction=%v (IPv%d)\n", p, dir, ipv)
 			ref := c12NoVerdict
 			switch w.Decision {
 			case refpol.Allow:
@@ -1452,10 +1479,12 @@ func c12RunCase(t *rapid.T, rec *ev.Recorder, noNamed, noLongPrefix bool) {
 				ref = c12Deny
 			}
 			b.WriteString(c12FormatOpinions(ops, ref))
+			var hdr strings.Builder
+			fmt.Fprintf(&hdr, "C12 violated (case %d of this run): the implementations disagree on the verdict for the same endpoint policy state and packet\n", caseNo)
+			fmt.Fprintf(&hdr, "state:\n%s", s.describe())
+			fmt.Fprintf(&hdr, "iptables chains visited:\n%snftables chains visited:\n%s", ipt.dumpVisited(p, inbound, mark0), nft.dumpVisited(p, inbound, mark0))
 			fmt.Fprintf(&b, "  reference opinion (labelling only): %v %+v\n", w.Decision, w)
-			fmt.Fprintf(&b, "state:\n%s", s.describe())
-			fmt.Fprintf(&b, "iptables:\n%s\nnftables:\n%s", ipt.rs.Dump(), nft.rs.Dump())
-			t.Fatalf("%s", b.String())
+			t.Fatalf("%s%s", hdr.String(), b.String())
 		}
 
 		// Classification (evidence only).
@@ -1551,7 +1580,8 @@ func TestVerifC12DataplanesAgree(t *testing.T) {
 	defer rec.Write()
 	noNamed := c12Known(c12SigCheckerNamedPort)
 	noLongPrefix := c12Known(c12SigCheckerLongPrefix)
-	rapid.Check(t, func(t *rapid.T) { c12RunCase(t, rec, noNamed, noLongPrefix) })
+	caseNo := 0 // diagnostic only (shown in failure messages); includes shrink re-executions
+	rapid.Check(t, func(t *rapid.T) { caseNo++; c12RunCase(t, rec, noNamed, noLongPrefix, caseNo) })
 }
 
 // ---- deterministic confirmation tests for findings on the unchanged tree (run by the driver by
